@@ -518,31 +518,46 @@ def run_check(P, tier, seed, replay=None):
     for (c, i, why) in F:
         by_class.setdefault(P.failure_class(c, i, why), []).append((c, i, why))
     for cls, items in sorted(by_class.items())[:6]:
-        c, i, why = min(items, key=lambda t: len(t[0]))
-        # a hang costs `stall_s` per attempt: report the shortest hanging case as it is
-        small = c if str(i).startswith("TIMEOUT") else P.shrink(c, fails_pred)
-        kf = None
-        r = (c, i, None, why, False) if str(i).startswith("TIMEOUT") else evaluate([small])[0]
-        for k in known:
-            if P.matches_known(k, small, r[1], r[3] or why):
-                kf = k
-                break
-        if kf is not None:
-            say("KNOWN-FINDING: property=%s %s [%s]" % (pid, kf["what"], kf["id"]))
-            res.known.append(kf["id"])
-            continue
-        path = write_replay(pid, {"property": pid, "kind": "property-predicate-fails-on-implementation",
-                                  "why": r[3] or why, "cases": [small], "impl_observation": r[1],
-                                  "model_observation": r[2], "original_case": c, "count_in_class": len(items)})
-        say("VIOLATION property=%s replay=%s" % (pid, path))
-        say("  implementation fails the property: %s" % (r[3] or why))
-        res.violations.append(path)
+        # a listed finding suppresses only the failures it explains: walk the class from the shortest case and report
+        # the first failure that no listed finding matches (another violation must not hide behind a known one that
+        # happens to fall into the same class)
+        reported_here = False
+        seen_known = set()
+        for (c, i, why) in sorted(items, key=lambda t: len(t[0]))[:12]:
+            # a hang costs `stall_s` per attempt: report the shortest hanging case as it is
+            small = c if str(i).startswith("TIMEOUT") else P.shrink(c, fails_pred)
+            r = (c, i, None, why, False) if str(i).startswith("TIMEOUT") else evaluate([small])[0]
+            # the matchers judge SHRUNK cases (their signatures are written for minimal inputs); the walk over the class
+            # is what keeps an unexplained failure from hiding behind explained ones
+            P.current_model_obs = r[2]
+            kf = next((k for k in known if P.matches_known(k, small, r[1], r[3] or why)), None)
+            P.current_model_obs = None
+            unexplained = "shrunk case"
+            if kf is not None:
+                if kf["id"] not in seen_known:
+                    seen_known.add(kf["id"])
+                    say("KNOWN-FINDING: property=%s %s [%s]" % (pid, kf["what"], kf["id"]))
+                    res.known.append(kf["id"])
+                continue
+            path = write_replay(pid, {"property": pid, "kind": "property-predicate-fails-on-implementation",
+                                      "why": r[3] or why, "cases": [small], "impl_observation": r[1],
+                                      "model_observation": r[2], "original_case": c, "count_in_class": len(items)})
+            say("VIOLATION property=%s replay=%s" % (pid, path))
+            say("  implementation fails the property: %s" % (r[3] or why))
+            if known:
+                say("  (the %s is not explained by a listed finding)" % unexplained)
+            res.violations.append(path)
+            reported_here = True
+            break
 
     if not res.violations and (D or proof_broken or tie_broken):
         # a known finding may also explain model-vs-impl disagreement (model describes intended behaviour)
         Dleft = []
         for (c, i, m) in D:
-            if any(P.matches_known(k, c, i, "disagreement") for k in known):
+            P.current_model_obs = m
+            hit = any(P.matches_known(k, c, i, "disagreement") for k in known)
+            P.current_model_obs = None
+            if hit:
                 continue
             Dleft.append((c, i, m))
         if Dleft or proof_broken or tie_broken:
